@@ -300,6 +300,210 @@ def long_list_table(ctx, rule, deep=False):
                        f'is {want}')
 
 
+LOOKALIKE_SELECTORS = ['p + span', 'p + b', 'p ~ *', 'li + li', 'li ~ li', 'p:has(+ span)', 'p:has(+ b)', 'p:has(~ *)', 'p:not(:has(+ *))', 'li:has(+ li)',
+                       'li:has(~ li)', 'li:not(:has(~ li))', 'section:has(> p + span)', 'section:has(p ~ b)', 'section:has(> p:only-child)', 'li:nth-child(2)',
+                       'li:nth-last-child(1)', 'li:only-child', 'li:first-child', 'li:last-child', 'li:nth-child(odd)', 'p:first-of-type', 'p:only-of-type',
+                       'li:nth-last-of-type(2)', ':empty', 'ul:has(> li:nth-child(3))', 'ul:not(:has(> li:nth-child(3)))', 'ul > :is(li + li)', 'section > :not(p)',
+                       'input:indeterminate', 'input:checked', ':default', 'form:has(:checked)', 'input:not(:indeterminate)', 'input + input', 'input:has(+ input)',
+                       'i:-soup-contains(t)', 'section:-soup-contains(xs)', 'section:-soup-contains-own(x)', 'p:lang(de)', 'p:lang(en)', 'p:dir(ltr)', 'b, span, li:last-child',
+                       'section:nth-of-type(2) > p', 'section + section > p + *', '* + ul > li', 'p:has(+ span, + b)', ':is(p, li):not(:has(+ *))']
+
+
+def lookalike_table(ctx, rule):
+    """Elements are told apart by identity, and nodes that are not elements do not take part in structure: on a tree full of
+    elements with identical markup in different contexts, (a) an attribute no selector reads, unique per element, changes no
+    result (bs4 compares and hashes tags by markup: a table keyed by a tag confuses look-alikes); (b) taking out the comments and
+    empty strings that are sprinkled between the elements (empty comments and empty strings are falsy objects) changes no result."""
+    from ..e2e import batch_api
+
+    def tree(sprinkle, unique):
+        n = [0]
+
+        def el(name, attrs, kids):
+            n[0] += 1
+            a = dict(attrs)
+            if unique:
+                a['data-u'] = str(n[0])
+            out = []
+            for k in kids:
+                if sprinkle:
+                    out += [('#comment', ''), '', ('#comment', 'c')][n[0] % 3:][:2]
+                out.append(k)
+            if sprinkle and kids:
+                out.append('')
+            return (name, a, out)
+        sec = lambda kids, **a: el('section', a, kids)        # noqa: E731
+        return [el('html', {'lang': 'en'}, [el('body', {}, [
+            sec([el('p', {}, ['x']), el('span', {}, ['s'])]), sec([el('p', {}, ['x']), el('b', {}, ['s'])]), sec([el('p', {}, ['x'])]),
+            sec([el('p', {}, ['x']), el('span', {}, ['s'])], lang='de'), sec([el('p', {}, ['x']), el('i', {}, ['t']), el('i', {}, ['t'])]),
+            el('ul', {}, [el('li', {}, ['a']), el('li', {}, ['a']), el('li', {}, ['a'])]), el('ul', {}, [el('li', {}, ['a']), el('li', {}, ['a'])]),
+            el('ul', {}, [el('li', {}, ['a'])]), el('ul', {}, []), el('ul', {}, []),
+            el('form', {}, [el('input', {'type': 'radio', 'name': 'g'}, []), el('input', {'type': 'radio', 'name': 'g', 'checked': ''}, [])]),
+            el('form', {}, [el('input', {'type': 'radio', 'name': 'g'}, []), el('input', {'type': 'radio', 'name': 'g'}, [])]),
+            el('form', {}, [el('input', {'type': 'radio', 'name': 'g', 'checked': ''}, []), el('input', {'type': 'radio', 'name': 'g'}, []),
+                            el('input', {'type': 'submit'}, []), el('input', {'type': 'submit'}, [])])])])]
+    docs, pos = {}, {}
+    for key, (sp, un) in {'A': (True, False), 'B': (True, True), 'C': (False, False)}.items():
+        doc, order, L = make_doc(tree(sp, un), 'html')
+        docs[key] = (doc, order)
+        els = elements(order)
+        pos[key] = {i: k for k, i in enumerate(i_ for i_, n_ in enumerate(order) if not isinstance(n_, TextNode))}
+    reqs = [(k, 'select', s_, None, ()) for k in docs for s_ in LOOKALIKE_SELECTORS]
+    res = dict(zip([(r[0], r[2]) for r in reqs], batch_api(ctx, docs, reqs)))
+    bad = None
+    for s_ in LOOKALIKE_SELECTORS:
+        out = {}
+        for k in docs:
+            r = res[(k, s_)]
+            out[k] = [pos[k][i] for i in r[1]] if r[0] == 'ok' else f'raises {r[1]}'
+        rule.instance({'selector': s_, 'selected_elements': out['A'] if isinstance(out['A'], str) else len(out['A']), 'same_with_unique_attribute': out['A'] == out['B'],
+                       'same_without_comments_and_empty_strings': out['A'] == out['C']}, key=f'lookalike|{s_}', sample_cap=6)
+        if bad is None and out['A'] != out['B']:
+            bad = (s_, out['A'], out['B'], 'the same tree in which every element carries a unique attribute that no selector reads (so that no two elements have the same markup)')
+        if bad is None and out['A'] != out['C']:
+            bad = (s_, out['A'], out['C'], 'the same tree without the comments, empty comments and empty strings between the elements')
+    rule.obligation(bad is None)
+    if bad is not None:
+        s_, a, b, what = bad
+        rule.violation(f'look-alike elements `{s_}`', 'soupsieve/css_match.py (navigation helpers / per-call memos)',
+                       f'{s_!r} on a tree of look-alike elements selects the elements number {a} (document order); on {what} it selects {b}')
+
+
+STATE_TREE = [('html', {'_label': 'root'}, [
+    ('head', {}, [('meta', {'charset': 'utf-8'}, []), ('meta', {'http-equiv': 'content-language', 'content': 'es'}, []), ('title', {}, ['T'])]),
+    ('body', {}, [
+        ('form', {'id': 'f'}, [('input', {'type': 'radio', 'name': 'g', 'id': 'r1', 'checked': ''}, []), ('input', {'type': 'radio', 'name': 'g', 'id': 'r2'}, []),
+                               ('input', {'type': 'radio', 'name': 'g', 'id': 'r3'}, []), ('input', {'type': 'submit', 'id': 's1'}, []), ('input', {'type': 'submit', 'id': 's2'}, [])]),
+        ('form', {'id': 'f2'}, [('input', {'type': 'radio', 'name': 'h', 'id': 'q1'}, []), ('input', {'type': 'radio', 'name': 'h', 'id': 'q2'}, []), ('button', {'id': 'b1'}, ['go'])]),
+        ('textarea', {'id': 't1', 'placeholder': 'hint'}, [('iframe', {'id': 'i1'}, [('html', {}, [('body', {}, [('p', {'id': 'ip'}, ['note'])])])])]),
+        ('textarea', {'id': 't2', 'placeholder': 'hint'}, []), ('textarea', {'id': 't3'}, ['note']),
+        ('input', {'type': 'number', 'min': '1', 'max': '5', 'value': '7', 'id': 'n1'}, []), ('input', {'type': 'number', 'min': '1', 'max': '5', 'value': '3', 'id': 'n2'}, []),
+        ('input', {'type': 'text', 'required': '', 'id': 'n3'}, []), ('input', {'type': 'text', 'disabled': '', 'id': 'n4'}, []),
+        ('a', {'href': 'u', 'id': 'a1'}, ['note']), ('p', {'id': 'p1'}, ['note']), ('p', {'id': 'p2', 'lang': 'pt'}, [])])])]
+STATE_POOL = [':indeterminate', ':default', ':checked', ':placeholder-shown', ':-soup-contains(note)', ':enabled', ':disabled', ':required', ':optional', ':read-write',
+              ':in-range', ':out-of-range', ':link', ':empty', 'input', 'textarea', '#r2', '#r3', ':not([checked])', ':lang(es)', ':lang(pt)', 'form > :first-child',
+              'input:not([checked])', '[name=g]', ':root', ':dir(ltr)']
+# :dir() / :defined inside a list make the whole list HTML-only (the recorded C05-R1 findings); on these HTML trees that changes nothing
+
+
+def state_algebra_table(ctx, rule, deep=False):
+    """The Boolean laws with the HTML state and text pseudo-classes as operands, on a form tree (radio group whose checked member
+    comes first, two forms, placeholders, a textarea holding an iframe, range inputs, a content-language pragma after another
+    meta) in html.parser-like and XHTML flavours: `A, B` and :is(A, B) select the union, *:not(A, B) the complement, X:is(A) the
+    intersection - whatever is evaluated first within the call."""
+    from ..e2e import batch_api
+    kinds = ('html', 'xhtml')
+    pairs = list(itertools.combinations(STATE_POOL, 2))
+    if not deep:
+        pairs = pairs[::11] + [(':-soup-contains(note)', ':placeholder-shown'), (':placeholder-shown', ':-soup-contains(note)'), ('#r2', ':indeterminate'),
+                              (':lang(es)', ':lang(pt)')]
+    xs = ['#r2', 'input:not([checked])', 'textarea', '*', 'textarea:not(:placeholder-shown)', ':lang(es)'] if deep else ['#r2', 'input:not([checked])', 'textarea:not(:placeholder-shown)']
+    texts = list(STATE_POOL) + xs
+    for a, b in pairs:
+        texts += [f'{a}, {b}', f'{b}, {a}', f':is({a}, {b})', f'*:not({a}, {b})']
+    for a in STATE_POOL:
+        texts += [f'{x}:is({a})' for x in xs] + [f'*:not({a})', f':is({a})']
+    texts = list(dict.fromkeys(texts))
+    docs, meta = {}, {}
+    for kind in kinds:
+        doc, order, L = make_doc(STATE_TREE, kind)
+        docs[kind] = (doc, order)
+        idx = {id(n_): i for i, n_ in enumerate(order)}
+        meta[kind] = (order, [idx[id(e)] for e in elements(order)])
+    special = [(':-soup-contains(note)', ':placeholder-shown'), (':placeholder-shown', ':-soup-contains(note)'), ('#r2', ':indeterminate'), (':lang(es)', ':lang(pt)')]
+    light = set(STATE_POOL) | set(xs)
+    for a, b in special:
+        light |= {f'{a}, {b}', f'{b}, {a}', f':is({a}, {b})', f'*:not({a}, {b})'}
+    for a in (':indeterminate', ':placeholder-shown', ':-soup-contains(note)', ':lang(es)', ':default'):
+        light |= {f'{x}:is({a})' for x in xs} | {f'*:not({a})', f':is({a})'}
+    # quick tier: the whole plan on the html.parser-like tree, the pairs that share a per-call memo on the XHTML tree
+    reqs = [(kind, 'select', t, None, ()) for kind in kinds for t in texts if deep or kind == 'html' or t in light]
+    res = dict(zip([(r[0], r[2]) for r in reqs], batch_api(ctx, docs, reqs)))
+    bad = None
+    for kind in kinds:
+        order, els = meta[kind]
+        show = lambda r: [(order[i].get('attrs').get('id') or label(order[i])) for i in r[1]] if r[0] == 'ok' else f'raises {r[1]}'      # noqa: E731
+
+        def check(text, want, law):
+            nonlocal bad
+            if (kind, text) not in res:
+                return
+            got = res[(kind, text)]
+            rule.instance({'document': kind, 'selector': text, 'selected': len(got[1]) if got[0] == 'ok' else got}, key=f'state-algebra|{kind}|{text}', sample_cap=4)
+            if got != ('ok', want) and bad is None:
+                bad = (kind, text, show(got), f'{law}: {show(("ok", want))}')
+        for t in list(STATE_POOL) + xs:
+            if res[(kind, t)][0] != 'ok' and bad is None:
+                bad = (kind, t, show(res[(kind, t)]), 'a result (each selector of the pool is valid)')
+        if bad is not None:
+            break
+        for a, b in pairs:
+            ra, rb = res[(kind, a)], res[(kind, b)]
+            union = sorted(set(ra[1]) | set(rb[1]))
+            check(f'{a}, {b}', union, 'the union of its alternatives')
+            check(f'{b}, {a}', union, 'the union of its alternatives')
+            check(f':is({a}, {b})', union, 'the union of its alternatives')
+            check(f'*:not({a}, {b})', [e for e in els if e not in union], 'the complement of the union')
+        for a in STATE_POOL:
+            ra = res[(kind, a)]
+            check(f':is({a})', ra[1], f'what {a!r} selects')
+            check(f'*:not({a})', [e for e in els if e not in ra[1]], f'the complement of {a!r}')
+            for x in xs:
+                check(f'{x}:is({a})', [e for e in res[(kind, x)][1] if e in ra[1]], f'the intersection of {x!r} and {a!r}')
+    rule.obligation(bad is None)
+    if bad is not None:
+        kind, text, got, law = bad
+        rule.violation(f'state algebra `{text}` ({kind})', 'soupsieve/css_match.py (match_selectors and the per-call memos of the state pseudo-classes)',
+                       f'{text!r} on the {kind} flavour of the form tree selects {got}; it must select {law}')
+
+
+def one_call_table(ctx, rule, deep=False):
+    """Within one call the answer for an element does not depend on the elements evaluated before it: select(S, document) equals
+    the elements for which a fresh match(S, element) holds - on the form tree, on a document with several top-level elements, and
+    on the tree of look-alike elements."""
+    from ..e2e import batch_api
+    multi = [('#comment', 'lead'), ('div', {'id': 'top1'}, [('p', {}, ['a'])]), 'between', ('section', {'id': 'top2', 'lang': 'fr'}, [('p', {'id': 'mp'}, ['b']), ('ul', {}, [('li', {}, ['c']), ('li', {}, [])])]),
+             ('p', {'id': 'top3'}, ['d'])]
+    cases = [('form tree', 'html', STATE_TREE, STATE_POOL + ['textarea:-soup-contains(note), textarea:placeholder-shown', ':not(:lang(es))', 'p:lang(es), a:lang(es)',
+                                                           ':is(:default, :indeterminate)', 'input:not(:indeterminate)']),
+             ('form tree', 'xhtml', STATE_TREE, [':lang(es)', ':indeterminate', ':default', 'textarea:placeholder-shown, textarea:-soup-contains(note)',
+                                                 'textarea:-soup-contains(note), textarea:placeholder-shown', ':-soup-contains(note)']),
+             ('several top-level elements', 'html', multi, [':dir(ltr)', 'p:dir(ltr)', ':root', ':lang(fr)', 'p', ':first-child', ':last-child', 'p:nth-child(1)', ':empty',
+                                                            ':not(:dir(rtl))', 'section :dir(ltr)', ':only-child', 'div ~ p', 'div + section', ':nth-last-child(1)'])]
+    docs, reqs, keys, meta = {}, [], [], {}
+    for ci, (desc, kind, spec, sels) in enumerate(cases):
+        doc, order, L = make_doc(spec, kind)
+        dk = f'd{ci}'
+        docs[dk] = (doc, order)
+        idx = {id(n_): i for i, n_ in enumerate(order)}
+        els = [idx[id(e)] for e in elements(order)]
+        meta[dk] = (desc, kind, order, els, sels)
+        for s_ in sels:
+            reqs.append((dk, 'select', s_, None, ()))
+            keys.append((dk, s_, 'select'))
+            for e in els:
+                reqs.append((dk, 'match', s_, e, ()))
+                keys.append((dk, s_, e))
+    res = dict(zip(keys, batch_api(ctx, docs, reqs)))
+    bad = None
+    for dk, (desc, kind, order, els, sels) in meta.items():
+        for s_ in sels:
+            sel = res[(dk, s_, 'select')]
+            per = [e for e in els if res[(dk, s_, e)] == ('ok', True)]
+            odd = [res[(dk, s_, e)] for e in els if res[(dk, s_, e)][0] != 'ok']
+            ok = sel == ('ok', per) and not odd
+            rule.instance({'document': f'{desc} ({kind})', 'selector': s_, 'select_equals_per_element_match': ok}, key=f'one-call|{dk}|{s_}', sample_cap=4)
+            if not ok and bad is None:
+                show = lambda ixs: [(order[i].get('attrs').get('id') or label(order[i])) for i in ixs]      # noqa: E731
+                bad = (desc, kind, s_, show(sel[1]) if sel[0] == 'ok' else f'raises {sel[1]}', show(per), odd[:1])
+    rule.obligation(bad is None)
+    if bad is not None:
+        desc, kind, s_, sel, per, odd = bad
+        rule.violation(f'one call `{s_}` ({desc}, {kind})', 'soupsieve/css_match.py (CSSMatch.__init__ / per-call memos)',
+                       f'select({s_!r}) on the {desc} ({kind}) gives {sel}; asking match() about each element alone accepts {per}'
+                       + (f' (match raises: {odd})' if odd else '') + ': the answer for an element depends on what the call evaluated before it, or on where the call started')
+
+
 HOSTILE = ['a', 'A', '0', '-', '-0', '--', 'a b', 'a b', 'a\tb', 'a\x0bb', 'a b', 'a\x1cb', 'a.b', 'a#b', 'a:b', 'a"b', "a'b", 'a\\b', 'a\x7fb', '\x01',
            '\x80', '\x9f', 'é', '\U0001f600', '\U0010ffff', '�', '(', '*', '[x]', 'a,b', 'a>b', '\x00z']
 
@@ -531,6 +735,14 @@ def nth_formula_table(ctx, rule):
             sel = f':{pseudo}({text}{" of " + of_s if of_s else ""})'
             reqs.append(('t', 'select', sel, idx[id(L['root'])], ()))
             wants.append((sel, designated(a, b, of_type, last, of_s)))
+    # the same `of S` spelled with an explicit universal selector, with and without the any-namespace prefix
+    for text, a, b in forms[::3]:
+        for pseudo, last in (('nth-child', False), ('nth-last-child', True)):
+            for of_s, spellings in (('.k', ('*.k', '*|*.k', '*|*:is(.k)', ':not(:not(.k))', '*|*:not(li:not(.k), dd:not(.k))')), ('li', ('*|li', '*|*:is(li)', 'li:not(.zz)', '*|li:not(dd)'))):
+                for sp in spellings:
+                    sel = f':{pseudo}({text} of {sp})'
+                    reqs.append(('t', 'select', sel, idx[id(L['root'])], ()))
+                    wants.append((sel, designated(a, b, False, last, of_s)))
     # several An+B of one query: in one compound (intersection), in a list (union), one negated (difference) - each keeps its own
     # counting state and its own `of S`
     parts = [(':nth-child(-n+5)', -1, 5, False, False, None), (':nth-child(2n+1)', 2, 1, False, False, None), (':nth-child(-2n+6)', -2, 6, False, False, None),
@@ -1082,10 +1294,14 @@ def scope_denotation_table(ctx, rule, deep=False):
     gives the same answer with `:scope`, with `&` and with `#id` of the call target in its place - through select, select_one,
     match, closest and filter, for several call targets."""
     from ..e2e import batch_api
-    doc, order, L = make_doc(TREE, 'html')
+    # the reference tree with an id on the root element and a nested document (whose root element is a :root, but not the scope)
+    name, attrs, (head, (bname, battrs, bkids)) = TREE[0]
+    frame = ('iframe', {'id': 'fr'}, [('html', {'id': 'inner'}, [('body', {}, [('p', {'class': ['x'], 'id': 'ipx'}, ['in']), ('div', {}, [('p', {}, [])])])])])
+    spec = [(name, dict(attrs, id='rt'), [head, (bname, battrs, list(bkids) + [frame])])]
+    doc, order, L = make_doc(spec, 'html')
     idx = {id(n_): i for i, n_ in enumerate(order)}
     byid = {e.get('attrs').get('id'): idx[id(e)] for e in elements(order) if e.get('attrs').get('id')}
-    targets = ['d1', 'p3', 'u', 'p1'] if deep else ['d1', 'p3', 'u']
+    targets = ['d1', 'p3', 'u', 'p1', 'inner', 'fr'] if deep else ['d1', 'p3', 'u', 'inner']
     fns = ('select', 'match', 'closest', 'filter', 'select_one')
     reqs, keys = [], []
     for t in targets:
@@ -1095,7 +1311,7 @@ def scope_denotation_table(ctx, rule, deep=False):
                     reqs.append(('t', fn, tpl.format(S=text), byid[t], ()))
                     keys.append((t, tpl, sp, fn))
     for tpl in SCOPE_TEMPLATES:
-        for sp, text in (('scope', ':scope'), ('amp', '&'), ('id', ':root')):
+        for sp, text in (('scope', ':scope'), ('amp', '&'), ('id', '#rt')):
             for fn in ('select', 'select_one'):
                 reqs.append(('t', fn, tpl.format(S=text), None, ()))
                 keys.append((None, tpl, sp, fn))
@@ -1121,7 +1337,7 @@ def scope_denotation_table(ctx, rule, deep=False):
     if bad is not None:
         t, tpl, sp, fn, got, ref = bad
         text = tpl.format(S=':scope' if sp == 'scope' else '&')
-        same = tpl.format(S=f'#{t}' if t else ':root')
+        same = tpl.format(S=f'#{t}' if t else '#rt')
         rule.violation(f'scope denotation `{text}` {fn}({t or "document"})', 'soupsieve/css_match.py (match_scope / CSSMatch.__init__ / entry points)',
                        f'{fn}({text!r}) called on {"<#" + t + ">" if t else "the document"} gives {got}; with the call target named outright, {same!r}, the '
                        f'answer is {ref}: {":scope" if sp == "scope" else "&"} does not denote exactly the element the call was made on')
